@@ -20,7 +20,8 @@ Spec == Init /\ [][Next]_doc
 Agree == AgreeOn(doc, Names, Keys \cup {"k1", "k2", "k3"})
 IgnoreNoise == IgnoredLinesIgnored(doc)
 Merge == ConcatMerges(doc)
-Retrievable == WrittenRetrievable(doc)
+Retrievable == WrittenRetrievable(doc) /\ WrittenRetrievableR(doc)
+BareReading == BareIsEmptyValue(doc)
 TypedOK == TypedTotal(doc, Keys)
 FaultFrozen == LET r == Run(doc) IN (r.fault # 0 /\ r.fault < Len(doc)) =>
                   LET q == Run(SubSeq(doc, 1, r.fault)) IN q.dom = r.dom /\ q.stack = r.stack /\ q.fault = r.fault
